@@ -175,6 +175,28 @@ BLOCKS = {
     'env_trivlist': ('envs', 'R', '\\begin{trivlist}\\item tl%(n)s\\end{trivlist}\\begin{list}{-}{}\\item li\\end{list}\n'),
     'env_subequations': ('envs', 'R', '\\begin{subequations}\\begin{equation} s_%(n)s \\end{equation}\\end{subequations}\n'),
     'env_alignat': ('envs', 'R', '\\begin{alignat}{2} a_%(n)s &= b & c &= d \\end{alignat}\\begin{flalign} e &= f \\end{flalign}\n'),
+    # user-extensible tables of packages: define in one document, use / provide-if-undefined in another
+    'xcolor_define': ('pkgtable', 'W', '\\definecolor{accent}{rgb}{0,0.4,0.8}\\textcolor{accent}{xa%(n)s}\n'),
+    'xcolor_redefine': ('pkgtable', 'W', '\\definecolor{red}{rgb}{0,0,1}\\colorlet{mine}{green}\\textcolor{red}{xr%(n)s}\n'),
+    'xcolor_provide': ('pkgtable', 'R', '\\providecolor{accent}{rgb}{0.8,0,0}\\providecolor{mine}{gray}{0.5}\\textcolor{accent}{xp%(n)s}\\textcolor{mine}{q}\n'),
+    'xcolor_use': ('pkgtable', 'R', '\\textcolor{red}{xu%(n)s} \\colorbox{yellow}{b} {\\color{blue}c}\n'),
+    'amsthm_style': ('pkgtable', 'W', '\\theoremstyle{definition}\\newtheorem{defn%(n)s}{Definition}\\begin{defn%(n)s}d%(n)s\\end{defn%(n)s}\n'),
+    'amsthm_plain': ('pkgtable', 'R', '\\newtheorem{rem%(n)s}{Remark}\\begin{rem%(n)s}r%(n)s\\end{rem%(n)s}\\begin{proof}p\\end{proof}\n'),
+    'amsopn_declare': ('pkgtable', 'W', '\\DeclareMathOperator{\\myop}{myop}$\\myop x_%(n)s$\n'),
+    'amsopn_provide': ('pkgtable', 'R', '\\providecommand{\\myop}{P}$\\myop y_%(n)s$\n'),
+    'hypersetup': ('pkgtable', 'W', '\\hypersetup{colorlinks=true,linkcolor=blue}\\href{http://h.example/%(n)s}{h%(n)s}\n'),
+    'href_plain': ('pkgtable', 'R', '\\href{http://p.example/%(n)s}{p%(n)s} \\url{http://u.example/}\n'),
+    'natbib_style': ('pkgtable', 'W', '\\setcitestyle{numbers,square}\\citep{nk%(n)s}\\begin{thebibliography}{9}\\bibitem[A(2000)]{nk%(n)s} A.\\end{thebibliography}\n'),
+    'natbib_cite': ('pkgtable', 'R', '\\citet{ck%(n)s} and \\citep{ck%(n)s}\\begin{thebibliography}{9}\\bibitem[B(2001)]{ck%(n)s} B.\\end{thebibliography}\n'),
+    'index_entries': ('pkgtable', 'W', '\\makeindex Idx\\index{alpha%(n)s}\\index{beta!gamma}\\printindex\n'),
+    'index_print': ('pkgtable', 'R', 'I\\index{delta%(n)s}\\printindex\n'),
+    'lstset': ('pkgtable', 'W', '\\lstset{language=Python,basicstyle=\\small}\\begin{lstlisting}\nx%(n)s = 1\n\\end{lstlisting}\n'),
+    'lstlisting': ('pkgtable', 'R', '\\begin{lstlisting}\ny%(n)s = 2\n\\end{lstlisting}\n'),
+    'graphicspath': ('pkgtable', 'W', '\\graphicspath{{img%(n)s/}}\n'),
+    'floatstyle': ('pkgtable', 'W', '\\floatstyle{ruled}\\newfloat{prog%(n)s}{thp}{lop}\\begin{prog%(n)s}pr\\caption{P}\\end{prog%(n)s}\n'),
+    'newenvironment': ('macro', 'W', '\\newenvironment{myenv}{[}{]}\\begin{myenv}e%(n)s\\end{myenv}\n'),
+    'provideenv': ('macro', 'R', '\\providecommand{\\myenvx}{U}\\myenvx %(n)s\n'),
+    'captionname': ('pkgtable', 'R', '\\begin{figure}cf%(n)s\\caption{Cn %(n)s}\\end{figure} \\figurename{} \\tablename{} \\contentsname\n'),
     'openout': ('switch', 'W', '\\openout\\myout=file%(n)s.aux \n'),
     'skip_dimen': ('switch', 'N', 'A\\vskip 3pt B\\hskip 2pt C%(n)s.\n'),
     'skip_glue': ('switch', 'N', 'A\\vspace{3pt plus 1pt} B\\hspace{2pt} C%(n)s.\n'),
@@ -183,7 +205,11 @@ BLOCKS = {
     'assign_probe': ('switch', 'R', '\\parindent=9pt Q%(n)s:\\ifdim\\parindent=9pt Y\\else N\\fi.\n'),
     'listings_pkg': ('resources', 'W', 'Uses listings resources %(n)s.\n'),
 }
-NEEDS = {'env_longtable': ['longtable'], 'env_align': ['amsmath'], 'env_align_star': ['amsmath'], 'env_gather': ['amsmath'],
+NEEDS = {'xcolor_define': ['xcolor'], 'xcolor_redefine': ['xcolor'], 'xcolor_provide': ['xcolor'], 'xcolor_use': ['xcolor'],
+         'amsthm_style': ['amsthm'], 'amsthm_plain': ['amsthm'], 'amsopn_declare': ['amsmath'], 'amsopn_provide': ['amsmath'],
+         'hypersetup': ['hyperref'], 'href_plain': ['hyperref'], 'natbib_style': ['natbib'], 'natbib_cite': ['natbib'],
+         'index_entries': ['makeidx'], 'index_print': ['makeidx'], 'lstset': ['listings'], 'lstlisting': ['listings'],
+         'graphicspath': ['graphicx'], 'floatstyle': ['float'], 'env_longtable': ['longtable'], 'env_align': ['amsmath'], 'env_align_star': ['amsmath'], 'env_gather': ['amsmath'],
          'env_multline': ['amsmath'], 'env_split': ['amsmath'], 'env_cases': ['amsmath'], 'env_matrix': ['amsmath'],
          'env_subequations': ['amsmath'], 'env_alignat': ['amsmath'], 'ifthen_open': ['ifthen'], 'listings_pkg': ['listings'], 'ifthen_math': ['ifthen'], 'ifthen_plain': ['ifthen'], 'color': ['color'], 'href': ['hyperref'],
          'coltype_def': ['array'], 'coltype_use': ['array']}
@@ -217,7 +243,10 @@ def job_source(job):
             if need not in pk:
                 pk.append(need)
     for p in pk:
-        lines.append('\\usepackage{%s}' % p)
+        opt = {'babel': '[french]', 'inputenc': '[utf8]', 'fontenc': '[T1]', 'geometry': '[margin=1in]'}.get(p, '')
+        if p == 'xcolor' and 'color' in pk:
+            continue
+        lines.append('\\usepackage%s{%s}' % (opt, p))
     pre = [b for b in job['blocks'] if b in ('coltype_def',)]
     lines.append('\\begin{document}')
     seen = set()
